@@ -502,7 +502,9 @@ func (db *DB) getActiveFileWriteOff() (off int64, err error) {
 		} else {
 			// a record that fails its checksum at the tail of the active file
 			// was being written when the process died: the log ends before it
-			if err == io.EOF || err == ErrCrc {
+			// (under MMap a record that claims to extend beyond the segment
+			// yields ErrIndexOutOfBound where FileIO yields io.EOF)
+			if err == io.EOF || err == ErrCrc || err == ErrIndexOutOfBound {
 				break
 			}
 
@@ -581,7 +583,7 @@ func (db *DB) parseDataFiles(dataFileIds []int) (unconfirmedRecords []*Record, c
 
 				// a record that fails its checksum was being written when the
 				// process died (or when a write failed): the file ends before it
-				if err == ErrCrc {
+				if err == ErrCrc || err == ErrIndexOutOfBound {
 					break
 				}
 				f.rwManager.Close()
